@@ -12,6 +12,7 @@ import (
 	"math/rand"
 	"sort"
 	"strings"
+	"unicode/utf8"
 
 	"github.com/glebziz/fs_db"
 	"github.com/glebziz/fs_db/pkg/verif"
@@ -232,6 +233,9 @@ func readPieces(rc io.ReadCloser, pieces []int) ([]byte, error) {
 }
 
 func (r *Runner) mism(idx int, s Step, probe, sig, exp, act string) *Mismatch {
+	if !utf8.ValidString(s.Key) || (probe != "" && strings.Contains(probe, "\\x")) {
+		sig += " key=non-utf8"
+	}
 	return &Mismatch{StepIdx: idx, Step: s, Probe: probe, Sig: sig, Expected: exp, Actual: act}
 }
 
